@@ -74,7 +74,9 @@ type built struct {
 	trailing bool
 }
 
-func build(g *gGrammar, k int) (b *built, err error) {
+func build(g *gGrammar, k int) (b *built, err error) { return buildWith(g, k) }
+
+func buildWith(g *gGrammar, k int, extra ...participle.Option) (b *built, err error) {
 	defer func() {
 		if r := recover(); r != nil {
 			err = fmt.Errorf("PANIC %v", r)
@@ -167,6 +169,7 @@ func build(g *gGrammar, k int) (b *built, err error) {
 	if g.CI {
 		opts = append(opts, participle.CaseInsensitive("Ident"))
 	}
+	opts = append(opts, extra...)
 	p, err := participle.Build[DynRoot](opts...)
 	if err != nil {
 		return nil, err
